@@ -66,10 +66,52 @@ def entry_json(rx, sel, name):
   return {'regex': rx, 'operation': sel, 'algorithm_key': alg, 'op_config': (cfg or C()).to_dict()}
 
 
+POLICY_NOW = [None]      # JSON text of the policy currently registered (None = the default one)
+
+
+def _policy_variant(drop_op):
+  """The default JSON policy without `drop_op` in any config group (what a user-supplied policy file for Quantizer.load_config_policy
+  could say)."""
+  from ai_edge_quantizer import default_policy
+  d = json.loads(default_policy.DEFAULT_JSON_POLICY)
+  d['ops_per_config'] = {k: [o for o in v if o != drop_op] for k, v in d['ops_per_config'].items()}
+  return json.dumps(d)
+
+
+def _register_policy(json_text):
+  """What Quantizer.load_config_policy(file) does with the file's text."""
+  from ai_edge_quantizer import default_policy, algorithm_manager
+  text = json_text if json_text is not None else default_policy.DEFAULT_JSON_POLICY
+  algorithm_manager.register_config_check_policy_func(
+      algorithm_manager.AlgorithmName.MIN_MAX_UNIFORM_QUANT, default_policy.update_default_config_policy(text))
+  POLICY_NOW[0] = json_text
+
+
+def _supported_now(alg, op, cfg):
+  """Support predicate of the statement under the policy registered NOW, read independently from its JSON text."""
+  if POLICY_NOW[0] is None:
+    return recipes.declared_supported(alg, op, cfg)
+  from vf.oracle import policy
+  return policy.supported(POLICY_NOW[0], str(getattr(alg, 'value', alg)), str(getattr(op, 'value', op)), cfg)
+
+
 def run_history(ctx, hist, qops, scopes, rng=None):
+  try:
+    return _run_history(ctx, hist, qops, scopes, rng)
+  finally:
+    if POLICY_NOW[0] is not None:
+      _register_policy(None)        # the registry is process-wide: never leak a variant into the next history
+
+
+def _run_history(ctx, hist, qops, scopes, rng=None):
   rm = recipe_manager.RecipeManager()
-  ref = resolve.RefRecipe(recipes.declared_supported)   # read from the declared JSON policy (vf/oracle/policy.py), never the library's own check
+  ref = resolve.RefRecipe(_supported_now)   # read from the declared JSON policy (vf/oracle/policy.py), never the library's own check
   for step in hist:
+    if step[0] == 'policy':
+      # the support check CHANGES in the middle of a history (Quantizer.load_config_policy): rules stay stored, applicability follows
+      _register_policy(None if step[1] is None else _policy_variant(step[1]))
+      ctx.count('policy_changes')
+      continue
     if step[0] == 'add':
       _, rx, sel, name = step
       alg, cfg = recipes.CFGS[name]
@@ -104,6 +146,11 @@ def run_history(ctx, hist, qops, scopes, rng=None):
   for o, s in reversed(queries):
     if norm(rm.get_quantization_configs(OP(o), s)) != first[(o, s)]:
       return ('resolution_not_pure', {'op': o, 'scope': s})
+  if any(st[0] == 'policy' for st in hist):
+    # rules accepted under an earlier policy are re-validated (and may be refused) when the export is loaded: the reload
+    # clause is about one fixed support check
+    ctx.count('histories_with_policy_change')
+    return ('ok', resolved_any)
   # a manager re-created from the exported recipe resolves identically
   try:
     rm2 = recipe_manager.RecipeManager()
@@ -154,6 +201,9 @@ def run_case(ctx, case, rng):
     rxs = [str(r) for r in rng.choice(WIDE_REGEXES, size=2, replace=False)] if dense else WIDE_REGEXES
     sels = ['*', 'FULLY_CONNECTED', 'TANH', 'CONV_2D'] if dense else WIDE_SELS
     for _ in range(int(rng.integers(4, 13 if dense else 11))):
+      if it % 5 == 2 and rng.random() < 0.15:
+        hist.append(('policy', [None, 'FULLY_CONNECTED', 'TANH', 'CONV_2D', 'EMBEDDING_LOOKUP'][int(rng.integers(5))]))
+        continue
       if dense:
         hist.append(('add', str(rng.choice(rxs)), str(rng.choice(sels, p=[0.2, 0.3, 0.25, 0.25])), str(rng.choice(cfg_names))))
         continue
@@ -167,6 +217,8 @@ def run_case(ctx, case, rng):
         hist.append(('load', ent))
       else:
         hist.append(('add', str(rng.choice(WIDE_REGEXES)), str(rng.choice(WIDE_SELS)), str(rng.choice(cfg_names))))
+    if any(st[0] == 'policy' for st in hist):
+      hist = [st for st in hist if st[0] != 'load']
     r = run_history(ctx, hist, WIDE_QOPS, WIDE_SCOPES)
     ctx.count('histories')
     ctx.count('random_histories')
